@@ -330,7 +330,7 @@ def family_grammar(rng, costs=(0, 5)):
     """Hand-shaped ambiguous families with random translation specifications:
     split families (several nonterminals in one rule, each with several lengths),
     shared-subtree families, operator families, nullable families."""
-    fam = rng.choice(['split', 'split', 'shared', 'ops', 'nullable', 'chains', 'chains', 'stmts', 'stmts', 'deepchains', 'deepchains'])
+    fam = rng.choice(['split', 'split', 'shared', 'ops', 'nullable', 'chains', 'chains', 'stmts', 'stmts', 'deepchains', 'deepchains', 'errafter'])
     nid = [0]
 
     def an():
@@ -385,7 +385,14 @@ def family_grammar(rng, costs=(0, 5)):
         if rng.random() < 0.5:
             rules.append(('E', ['(', 'E', ')'], None, 0, [1]))
         rules.append(('E', ['a'], rng.choice([None, an()]), cst(), [0]))
-        terms = [('a', 97), ('+', 43), ('*', 42), ('-', 45), ('(', 40), (')', 41)]
+        if rng.random() < 0.35:
+            # an optional (nullable) tail after a recursive rule: the same dotted rule before the
+            # nullable symbol is in one set with several origins
+            o = rng.choice(ops)
+            rules.insert(rng.randrange(len(rules)), ('E', ['E', o, 'E', 'O'], an(), cst(), rng.choice([[0, 2], [0, 2, 3], [2, 0]])))
+            rules.append(('O', [], rng.choice([None, an()]), 0, None))
+            rules.append(('O', ['b'], rng.choice([None, an()]), 0, [0]))
+        terms = [('a', 97), ('+', 43), ('*', 42), ('-', 45), ('(', 40), (')', 41), ('b', 98)]
     elif fam == 'stmts':
         # statements with optional (nullable) trailing parts: what may follow a nonterminal
         # is decided by the context of the enclosing rule
@@ -432,6 +439,18 @@ def family_grammar(rng, costs=(0, 5)):
         # keep L first (start symbol)
         rules.sort(key=lambda r: 0 if r[0] == 'L' and r[1] == ['X'] else 1)
         terms = [('t', 116), ('u', 117)] + [(x, ord(x)) for x in sufs]
+    elif fam == 'errafter':
+        # `error' expected directly after a nonterminal (the place is created by a reduction, not by a shift)
+        rules.append(('S', ['A', 'B', 'e'], an(), cst(), [0, 1]))
+        rules.append(('A', ['a'], rng.choice([None, an()]), 0, [0]))
+        rules.append(('A', ['x', 'a'], an(), cst(), [1]))
+        if rng.random() < 0.4:
+            rules.append(('A', ['A', 'x'], an(), cst(), [0]))
+        rules.append(('B', ['b'], rng.choice([None, an()]), 0, [0]))
+        rules.append(('B', ['error'] + rng.choice([[], [], ['c']]), an(), cst(), []))
+        if rng.random() < 0.4:
+            rules = [('L', ['S'], None, 0, [0]), ('L', ['L', 'S'], an(), cst(), [0, 1])] + rules
+        terms = [('a', 97), ('b', 98), ('c', 99), ('e', 101), ('x', 120)]
     elif fam == 'deepchains':
         # one leaf reached through unit chains of different depth, the alternatives told apart by
         # the terminal that follows: FIRST/FOLLOW and dynamic contexts need several passes,
